@@ -74,8 +74,8 @@ def decode_rules(ctx, tab):
     # scrutinee = <working copy> & 3
     st = fv.term(m["e"])
     pi = param_index(fv, "kmer")
-    work = [b for lid, b in fv.binds.items() if b["mut"] and b["val"][0] == "node"
-            and fv.term(b["val"][1]) == ("param", pi)]
+    work = [b for lid, b in fv.binds.items() if b["mut"] and (b["val"] == ("param", pi) or (
+        b["val"][0] == "node" and fv.term(b["val"][1]) == ("param", pi)))]
     ok = st[0] == "bin" and st[1] == "&" and L(3) in (st[2], st[3])
     ctx.check("C02.T1", "numeric_to_kmer:scrutinee", ok, "digit = %s" % show(st),
               "decode scrutinee is `%s`, expected `<code> & 3`" % show(st), line_of(m))
@@ -108,6 +108,8 @@ def loop_rules(ctx, fv, m):
     pi = param_index(fv, "kmer")
     work = [b for lid, b in fv.binds.items() if b["mut"] and b["val"][0] == "node"
             and fv.term(b["val"][1]) == ("param", pi)]
+    if not work:
+        work = [b for lid, b in fv.binds.items() if b["mut"] and b["val"] == ("param", pi)]
     # S2: loop: push(c); code >>= 2 ; k trips; result reversed
     loop = next((n for n in fv.nodes if n.get("k") == "for"), None)
     if loop is None or not work:
@@ -152,6 +154,9 @@ def revcomp_rules(ctx):
     kp, sp_ = param_index(fv, "kmer"), param_index(fv, "ksize")
     muts = {lid: b for lid, b in fv.binds.items() if b["mut"] and b["val"][0] == "node"}
     src = [lid for lid, b in muts.items() if fv.term(b["val"][1]) == ("param", kp)]
+    if not src:
+        src = [lid for lid, b in fv.binds.items() if b["mut"] and b["val"] == ("param", kp)]
+        muts.update({lid: fv.binds[lid] for lid in src})
     acc = [lid for lid, b in muts.items() if fv.term(b["val"][1]) == L(0)]
     if loop is None or len(src) != 1 or len(acc) != 1:
         ctx.fail("C02.S1", "rev_comp:shape", "expected one accumulator starting at 0, one working copy of the "
